@@ -8,6 +8,7 @@ import (
 	"fmt"
 	"hash/fnv"
 	"os"
+	"regexp"
 	"runtime"
 	"runtime/debug"
 	"sort"
@@ -133,7 +134,14 @@ func (t *T) Violation(key, format string, a ...any) {
 		}
 	}
 	if len(t.res.Violations) < 200 {
-		t.res.Violations = append(t.res.Violations, Violation{Key: key, Detail: fmt.Sprintf(format, a...)})
+		v := Violation{Key: key, Detail: fmt.Sprintf(format, a...)}
+		t.res.Violations = append(t.res.Violations, v)
+		// written through at once: a verdict must survive a case that never ends afterwards (e.g. when the defect it
+		// reports leaves a goroutine spinning or a lock held and the supervisor's watchdog has to kill the child)
+		if t.jf != nil {
+			b, _ := json.Marshal(map[string]string{"early_violation": v.Key, "detail": v.Detail, "case": t.res.Case})
+			t.jf.Write(append(b, '\n'))
+		}
 	}
 }
 func (t *T) Inconclusive(format string, a ...any) {
@@ -204,7 +212,7 @@ type Check struct {
 
 var registry = map[string]*Check{}
 
-func Register(c *Check) { registry[c.ID] = c }
+func Register(c *Check)       { registry[c.ID] = c }
 func Lookup(id string) *Check { return registry[id] }
 func IDs() []string {
 	var s []string
@@ -255,13 +263,15 @@ func Guard(f func()) (panicked bool, frame string, text string) {
 }
 
 // ChildMain is the entry point of the child binary.
-//   vchild -check ID -tier T -seed S -list            -> prints the number of cases
-//   vchild -check ID -tier T -seed S -journal F       -> reads indices on stdin, runs them
-//   vchild -check ID -tier T -seed S -journal F -only CASEID
+//
+//	vchild -check ID -tier T -seed S -list            -> prints the number of cases
+//	vchild -check ID -tier T -seed S -journal F       -> reads indices on stdin, runs them
+//	vchild -check ID -tier T -seed S -journal F -only CASEID
 func ChildMain(args []string) int {
 	var id, tier, journal, only string
 	var seed int64 = 1
 	list := false
+	names := false
 	for i := 0; i < len(args); i++ {
 		switch args[i] {
 		case "-check":
@@ -281,6 +291,8 @@ func ChildMain(args []string) int {
 			only = args[i]
 		case "-list":
 			list = true
+		case "-names":
+			names = true
 		}
 	}
 	ck := Lookup(id)
@@ -290,6 +302,23 @@ func ChildMain(args []string) int {
 	}
 	env := Env{Seed: seed, Tier: tier}
 	cases := ck.Cases(env)
+	if re := os.Getenv("VERIF_ONLY_CASES"); re != "" { // debugging aid: restrict the case list (not used by registered commands)
+		if rx, err := regexp.Compile(re); err == nil {
+			var f []Case
+			for _, c := range cases {
+				if rx.MatchString(c.ID) {
+					f = append(f, c)
+				}
+			}
+			cases = f
+		}
+	}
+	if names {
+		for i, c := range cases {
+			fmt.Printf("%d\t%s\n", i, c.ID)
+		}
+		return 0
+	}
 	if list {
 		fmt.Println(len(cases))
 		return 0
